@@ -22,7 +22,7 @@ Definition pcl (p : pc) : pclass :=
   | ORes j _ | ODyOpen j _ _ | ODyFstatSize j _ _ | ODyFstatPerm j _ _ | OReg j _ => COpen j
   | RIncr j _ => CUnconf j
   | CStChmod1 _ i | CStWrite _ i | CStChmod2 _ i | CRes _ i | CDyOpen _ i | CDyTrunc _ i | CDyFstat _ i
-  | CDyInit _ i | CPanicRmStatic _ i => CCreate i
+  | CDyInit _ i | CPanicRmStatic _ i | CFailRmStatic _ i _ => CCreate i
   | CDyChmod _ i => CInit i
   | DRmTag h | DDereg h => CDropPre h
   | DSnap h => CSnap h
@@ -33,7 +33,7 @@ Definition pcl (p : pc) : pclass :=
 
 Definition special (p : pc) : bool :=
   match p with
-  | Idle | POpen2 | OReg _ _ | RIncr _ _ | CStOpen _ | CDyInit _ _ | CDyChmod _ _ | CPanicRmStatic _ _
+  | Idle | POpen2 | OReg _ _ | RIncr _ _ | CStOpen _ | CDyInit _ _ | CDyChmod _ _ | CPanicRmStatic _ _ | CFailRmStatic _ _ _
   | DDereg _ | DSnap _ | DCas _ _ | DDyUnlink _ | DStRemove _ => true
   | _ => false
   end.
@@ -1292,6 +1292,23 @@ Proof.
       * destruct (lb_rem _ _ _ (HL t') i Hc) as (_ & _ & z & Hz & Hzd & _). congruence.
     + apply hpc_cnone; auto.
     + class_now Epc.
+  - (* CFailRmStatic *)
+    unfold LInv in Hli. rewrite Epc in Hli. cbn in Hli. destruct Hli as (x & Hx & Hown & Hnf).
+    destruct (lb_create _ _ _ Ht i) as [Hci Hr]; [left; class_now Epc|].
+    destruct (p_own_static P).
+    + apply fail_with_tag_calm in H. apply calm_lsame3 in H. destruct H as ((A1 & A2 & A3) & B & C).
+      apply (cur_clear g g' ls t l' i); auto.
+      * intros z Hz. left. congruence.
+      * intros t' N. specialize (HLI t'). unfold LInv in HLI. repeat split; intros Hc.
+        -- destruct (at_pc (ls t')) eqn:E'; cbn in Hc; try discriminate; inversion Hc; subst; cbn in HLI;
+             destruct HLI as (z & Hz & Ho & _); congruence.
+        -- destruct (at_pc (ls t')) eqn:E'; cbn in Hc; try discriminate; inversion Hc; subst; cbn in HLI;
+             destruct HLI as (z & Hz & Ho & _); congruence.
+        -- destruct (lb_rem _ _ _ (HL t') i Hc) as (_ & _ & z & Hz & Hzd & _). congruence.
+      * apply hpc_cnone; auto.
+      * class_now Epc.
+    + apply fail_with_tag_calm in H. apply calm_lsame3 in H. destruct H as (A & B & C).
+      apply (calm_body g); auto. apply (Hold_vac _ g). class_now Epc.
   - (* DDereg *)
     destruct (get_inst g h) as [x|] eqn:Ex; [|discriminate]. injection H as Eg' El' Ee'; subst g' l' es.
     destruct (lb_droppre _ _ _ Ht h) as [(z & Hz & Hzd & Hzl) Hr]; [class_now Epc|]. assert (z = x) by congruence. subst z.
